@@ -263,6 +263,8 @@ def gboost_op(rng, mode, n, ratio, calls):
     samples = make_samples(rng, n, 0, total)
     values = [0.0] * (total * gdim)
     per = weights_with_zeros(rng, total)
+    if mode == "wei_grad_bootstrap":  # the weight is a 2-norm: keep the squares inside the binary64 range
+        per = [1.5 if (w != 0.0 and not 1e-100 < w < 1e100) else w for w in per]
     # make sure at least one *selected* sample has a positive weight
     if all(per[s] == 0.0 for s in samples):
         per[samples[0]] = 1.0
@@ -296,17 +298,15 @@ def gen(rng, tier):
 
     # -- exhaustive small: k-fold ---------------------------------------------------------------------------
     cells = [(n, k) for n in range(2, 41) for k in range(2, min(n, 12) + 1)]
-    full_cells = set(rng.shuffle(cells)[:6]) | {(25, 5), (7, 3), (40, 12)} if thorough else set()
-    per_cell = 48 if thorough else 16
     cursor = rng.below(1025)
     for (n, k) in cells:
         samples = make_samples(rng, n)
-        if (n, k) in full_cells:
-            seeds = range(1025)
+        if thorough:
+            seeds = range(1025)  # the whole domain of splitter::seed
         else:
             # stratified: consecutive blocks of the seed domain, so that every seed 0..1024 is used in several cells
             seeds = list(FIXED_SEEDS)
-            for _ in range(per_cell):
+            for _ in range(16):
                 seeds.append(cursor % 1025)
                 cursor += 1
         for s in seeds:
